@@ -436,6 +436,17 @@ def check_scoringmatrix(rep, case):
     if rows != exp or obs[1][1] != w or obs[1][2] != protein:
         _viol(rep, "C17 ScoringMatrix wrong cells", "rows %r len %r protein %r, expected %r" % (rows[:2], obs[1][1], obs[1][2], exp[:2]), case)
         return
+    # the buffer view (what numpy.asarray reads) holds the same cells, in either orientation
+    if w > 0:
+        mv = call(lambda: memoryview(sm).tolist())
+        if is_panic(mv):
+            _viol(rep, "C17 ScoringMatrix memoryview PanicException", show(mv), case)
+        elif mv[0] == "ok":
+            def _same(a, b):
+                return len(a) == len(b) and all(len(x) == len(y) and all((p == q) or (p != p and q != q) for p, q in zip(x, y)) for x, y in zip(a, b))
+            transposed = [list(col) for col in zip(*exp)]
+            if not (_same(mv[1], exp) or _same(mv[1], transposed)):
+                _viol(rep, "C17 ScoringMatrix memoryview differs from the rows", "memoryview(m).tolist() = %r but the rows are %r" % (mv[1][:3], exp[:3]), case)
     # max_score
     ms = call(sm.max_score)
     e, ab = rm.max_score(exp)
